@@ -40,9 +40,22 @@ def fixed_value(r):
         return True, v
     if type(r).__name__ == "ListSchema":
         els = r.props.get("elements")
-        if els is not Nil and all((x is not E) and x.props.get("value") is not Nil for x in els):
-            return True, [x.props.get("value") for x in els]
+        if els is not Nil and all(x is not E for x in els):
+            # a fully fixed element list: its length is fixed even where an element is not pinned
+            # (for such an element any conforming probe will do)
+            out = []
+            for x in els:
+                pv = x.props.get("value")
+                if pv is Nil:
+                    pv = next((p for p in _PROBES if not validate(x, p).has_errors()), Nil)
+                    if pv is Nil:
+                        return False, None
+                out.append(pv)
+            return True, out
     return False, None
+
+
+_PROBES = [None, 0, 1, "a", "", 1.5, True, b"", [], {}]
 
 
 def families(kind, chain):
